@@ -9,9 +9,10 @@ model:
 * `f32::total_cmp` is reconstructed as comparison of the integer `tkey bits`;
 * the IEEE comparison `a > b` used by the top-K update guard (scalar `>` and the SIMD
   `ops.gt` lane test) is `fgt`: false if either side is NaN, `-0.0 == +0.0`;
-* the cumulative sum of `TopP` is a sum of exact integers `val` (every finite f32 is an
-  integer multiple of 2^-149; the harness only sends inputs whose f32 partial sums are
-  exact, so the integer sum *is* the f32 sum).
+* the cumulative sum of `TopP` lives in `Ext`: an exact integer (every finite f32 is an
+  integer multiple of 2^-149; the harness only compares inputs whose finite f32 partial sums
+  are exact, so the integer sum *is* the f32 sum), or `+inf`, `-inf`, `NaN` with the IEEE
+  rules for `+` and `<` — so ±inf / NaN scores are modelled, not defaulted.
 
 A Rust panic is `none`.  Import-free so it links into the `model_C31` driver.
 -/
@@ -47,11 +48,50 @@ def scaled (b : Nat) : Option Int :=
     let v : Nat := if e = 0 then f else (2 ^ 23 + f) * 2 ^ (e - 1)
     some (if b < 2 ^ 31 then (v : Int) else -(v : Int))
 
+/-- Value of an f32 as far as the `TopP` running sum needs it: an exact finite value
+(× 2^149) or one of the IEEE specials. -/
+inductive Ext where
+  | fin (v : Int)
+  | pinf
+  | ninf
+  | nan
+deriving DecidableEq, Repr
+
+/-- f32 `a + b` on `Ext`.  finite + finite is taken exact (no rounding, no overflow — the
+harness asserts this per compared case); everything else is IEEE: NaN is absorbing,
+`inf + -inf = NaN`, an infinity absorbs finite values. -/
+def Ext.add : Ext → Ext → Ext
+  | .fin a, .fin b => .fin (a + b)
+  | .nan, _ => .nan
+  | _, .nan => .nan
+  | .pinf, .ninf => .nan
+  | .ninf, .pinf => .nan
+  | .pinf, _ => .pinf
+  | _, .pinf => .pinf
+  | .ninf, _ => .ninf
+  | _, .ninf => .ninf
+
+/-- f32 `cum < thr` for a threshold that is finite (`some t`, × 2^149) or `+inf` (`none`):
+false whenever `cum` is NaN or `+inf`. -/
+def Ext.lt (c : Ext) (thr : Option Int) : Bool :=
+  match c, thr with
+  | .fin a, some t => decide (a < t)
+  | .fin _, none => true
+  | .ninf, _ => true
+  | .pinf, _ => false
+  | .nan, _ => false
+
+/-- The `Ext` value of a bit pattern. -/
+def extOf (b : Nat) : Ext :=
+  match scaled b with
+  | some v => .fin v
+  | none => if isNaN b then .nan else if b < 2 ^ 31 then .pinf else .ninf
+
 /-! ## Generic algorithms over an element type with a total-order key `key`, the float
-`>` test `gt` and an exact value `val` -/
+`>` test `gt` and a value `val` in `Ext` -/
 
 section Generic
-variable {α : Type} (key : α → Int) (gt : α → α → Bool) (val : α → Int)
+variable {α : Type} (key : α → Int) (gt : α → α → Bool) (val : α → Ext)
 
 /-- Insert `x` before the first element whose key is `≤ key x` (descending, `x` first among
 equals). -/
@@ -115,14 +155,14 @@ def topKSeq (k : Nat) (xs : List α) : List α :=
   else seqLoop key gt (sortDesc key (xs.take k)) (xs.drop k)
 
 /-- The `while cum_prob < threshold && k < pairs.len()` loop of `TopP`. -/
-def takeUntil (thr : Int) : Int → List α → List α
+def takeUntil (thr : Option Int) : Ext → List α → List α
   | _, [] => []
-  | cum, x :: xs => if cum < thr then x :: takeUntil thr (cum + val x) xs else []
+  | cum, x :: xs => if cum.lt thr then x :: takeUntil thr (cum.add (val x)) xs else []
 
 /-- `TopP::filter` with `normalize = false`: `isOne` is `cumulative_prob == 1.0`
 (input returned unchanged), `thr` is `max(cumulative_prob, f32::MIN_POSITIVE)`. -/
-def topP (isOne : Bool) (thr : Int) (xs : List α) : List α :=
-  if isOne then xs else takeUntil val thr 0 (sortDesc key xs)
+def topP (isOne : Bool) (thr : Option Int) (xs : List α) : List α :=
+  if isOne then xs else takeUntil val thr (.fin 0) (sortDesc key xs)
 
 /-- `Chain::filter`: `filters.iter().fold(logits, |l, f| f.filter(l, prev))`, with panics
 (`none`) propagating. -/
@@ -143,8 +183,8 @@ def Item.key (a : Item) : Int := tkey a.bits
 def Item.nkey (a : Item) : Int := RtenVerif.Filter.nkey a.bits
 def Item.gt (a b : Item) : Bool := fgt a.bits b.bits
 def Item.isNaN (a : Item) : Bool := RtenVerif.Filter.isNaN a.bits
-/-- Exact value × 2^149 (0 for non-finite scores; the driver does not answer for those). -/
-def Item.val (a : Item) : Int := (scaled a.bits).getD 0
+/-- Value of the score as seen by the `TopP` running sum (finite exact, ±inf or NaN). -/
+def Item.val (a : Item) : Ext := extOf a.bits
 
 /-- `f32::MIN_POSITIVE` (2^-126) as a multiple of 2^-149. -/
 def minPositive : Int := 2 ^ 23
@@ -154,7 +194,8 @@ def oneBits : Nat := 0x3f800000
 
 /-- Multiply a score by `2^(-j)` (what `Temperature::new(2^j)` does: `x *= 1.0 / t`), exact
 cases only: zeros and infinities are unchanged, a normal number whose result is normal has
-its exponent field shifted; `none` when the model declines (NaN, subnormal, over/underflow). -/
+its exponent field shifted; `none` when the result is not described (NaN, subnormal,
+over/underflow). -/
 def scaleBits (j : Int) (b : Nat) : Option Nat :=
   let m := mag b
   let e : Int := ((m / 2 ^ 23 : Nat) : Int)
@@ -163,11 +204,28 @@ def scaleBits (j : Int) (b : Nat) : Option Nat :=
   else if 1 ≤ e - j ∧ e - j ≤ 254 then some (((b : Int) - j * 2 ^ 23).toNat)
   else none
 
+/-- `assert!(temperature >= 0.)` in `Temperature::new`: fails for NaN and for negative values
+(`-0.0 >= 0.` holds). -/
+def tempValid (t : Nat) : Bool := !isNaN t && (decide (t < 2 ^ 31) || mag t == 0)
+
+/-- `some j` when the temperature is the power of two `2^j` with `1/t` normal as well. -/
+def tempExp (t : Nat) : Option Int :=
+  if t < 2 ^ 31 ∧ t % 2 ^ 23 = 0 ∧ 1 ≤ t / 2 ^ 23 ∧ t / 2 ^ 23 ≤ 253 then
+    some (((t / 2 ^ 23 : Nat) : Int) - 127)
+  else none
+
+/-- The f32 product `x * (1.0 / t)` on bit patterns where the model describes it exactly
+(`t` a power of two, `x` scaling without rounding); `none` elsewhere. -/
+def mulExact (t b : Nat) : Option Nat :=
+  match tempExp t with
+  | some j => scaleBits j b
+  | none => none
+
 /-- Filter descriptions the harness can request. -/
 inductive Spec where
   /-- `TopK::new(k)` -/
   | topK (k : Nat)
-  /-- `TopP::new(p).normalize(false)`, `p` given by its bit pattern -/
+  /-- `TopP::new(p).normalize(false)`, `p` given by its bit pattern (any pattern) -/
   | topP (pbits : Nat)
   /-- `Sort::new()` -/
   | sort
@@ -175,42 +233,60 @@ inductive Spec where
   | idMod (m r : Nat)
   /-- `token_id_filter(|id| id >= c)` -/
   | idGe (c : Nat)
-  /-- `Temperature::new(2^j)` -/
-  | temp (j : Int)
+  /-- `Temperature::new(t)`, `t` given by its bit pattern (any pattern) -/
+  | temp (tbits : Nat)
 deriving Repr
 
-/-- Threshold of `TopP` for a finite `p`: `max(p, MIN_POSITIVE)`, scaled. -/
-def topPThr (pbits : Nat) : Int := max ((scaled pbits).getD 0) minPositive
+/-- Threshold of `TopP`: `cumulative_prob.max(f32::MIN_POSITIVE)` (× 2^149; `none` = `+inf`).
+`f32::max` ignores a NaN operand, so NaN, negative and `-inf` all give `MIN_POSITIVE`. -/
+def topPThr (pbits : Nat) : Option Int :=
+  if isNaN pbits then some minPositive
+  else match scaled pbits with
+    | some v => some (max v minPositive)
+    | none => if pbits < 2 ^ 31 then none else some minPositive
 
-/-- Is the request inside the exact domain of the model?  (`topP`: finite `p` and finite
-scores; `temp`: every score scales exactly.)  Outside it the driver answers `skip`. -/
+/-- Is the request one on which the driver's stand-in for f32 multiplication (`mulExact`) is
+exact?  Only `temp` needs this (`t = 1.0` returns early, an invalid `t` panics before any
+arithmetic); everything else, including ±inf / NaN scores and thresholds, is modelled for all
+inputs.  Outside it the driver answers `skip`. -/
 def inDomain : Spec → List Item → Bool
-  | .topP pbits, xs => (scaled pbits).isSome && xs.all (fun a => (scaled a.bits).isSome)
-  | .temp j, xs => j == 0 || xs.all (fun a => (scaleBits j a.bits).isSome)
+  | .temp t, xs =>
+    !tempValid t || t == oneBits || xs.all (fun a => (mulExact t a.bits).isSome)
   | _, _ => true
 
-/-- Apply one filter (`none` = panic). -/
-def applySpec (clamp : Bool) (lanes : Nat) : Spec → List Item → Option (List Item)
+/-- Apply one filter (`none` = panic).  `mul t b` is the bit pattern of the f32 product
+`f32::from_bits(b) * (1.0 / f32::from_bits(t))`; theorems hold for every `mul`, the driver
+instantiates it where it is exact.  The `Temperature::new` assertion fires when the filter is
+*constructed* (e.g. in `Chain::temperature`); since nothing else in a chain can panic and
+filters have no side effects, "panics at this step" has the same observable outcome. -/
+def applySpec (mul : Nat → Nat → Nat) (clamp : Bool) (lanes : Nat) :
+    Spec → List Item → Option (List Item)
   | .topK k, xs => topK Item.key Item.gt clamp lanes k xs
   | .topP pbits, xs => some (topP Item.key Item.val (pbits == oneBits) (topPThr pbits) xs)
   | .sort, xs => some (sortDesc Item.key xs)
   | .idMod m r, xs => some (xs.filter (fun a => a.id % m == r))
   | .idGe c, xs => some (xs.filter (fun a => decide (c ≤ a.id)))
-  | .temp j, xs =>
-    if j = 0 then some xs
-    else some (xs.map (fun a => Item.mk a.id ((scaleBits j a.bits).getD a.bits)))
+  | .temp t, xs =>
+    if !tempValid t then none
+    else if t == oneBits then some xs
+    else some (xs.map (fun a => Item.mk a.id (mul t a.bits)))
 
 /-- `Chain` of the described filters. -/
-def chainSpec (clamp : Bool) (lanes : Nat) (fs : List Spec) (xs : List Item) : Option (List Item) :=
-  chain (fs.map (applySpec clamp lanes)) xs
+def chainSpec (mul : Nat → Nat → Nat) (clamp : Bool) (lanes : Nat) (fs : List Spec)
+    (xs : List Item) : Option (List Item) :=
+  chain (fs.map (applySpec mul clamp lanes)) xs
+
+/-- The driver's multiplication: exact where `mulExact` answers (never consulted elsewhere,
+see `inDomain`). -/
+def mulDriver (t b : Nat) : Nat := (mulExact t b).getD b
 
 /-- Driver helper: run a chain step by step; outer `none` = some step left the model's exact
-domain (`skip`), inner `none` = panic.  `runChain_eq` relates it to `chainSpec`. -/
+domain (`skip`), inner `none` = panic.  `c31_runChain_eq` relates it to `chainSpec`. -/
 def runChain (clamp : Bool) (lanes : Nat) : List Spec → List Item → Option (Option (List Item))
   | [], xs => some (some xs)
   | f :: fs, xs =>
     if inDomain f xs then
-      match applySpec clamp lanes f xs with
+      match applySpec mulDriver clamp lanes f xs with
       | none => some none
       | some ys => runChain clamp lanes fs ys
     else none
